@@ -134,8 +134,8 @@ fn baseline(spec: &Spec) -> Result<Baseline, String> {
             o.rec.outputs.iter().map(|x| x.error.clone()).collect::<Vec<_>>()
         ));
     }
-    let (_, srcs) = shapes::build_plan(&s);
-    let layout = srcs.iter().map(|g| g.gates.iter().map(|x| x.lock().unreleased() - 1).collect()).collect();
+    let (_, _, infos) = shapes::build_plan(&s);
+    let layout = infos.iter().map(|i| i.batches.clone()).collect();
     Ok(Baseline {
         rows: all_rows_text(&o.rec),
         requests: o.requests.clone(),
@@ -312,6 +312,16 @@ fn fault_sets(ctx: &Ctx, spec: &Spec, base: &Baseline) -> Vec<Vec<Fault>> {
     sets
 }
 
+fn violation_key(spec: &Spec, sym: &str, singles: &parking_lot::Mutex<std::collections::HashSet<(Shape, &'static str, String)>>) -> String {
+    let mut seen = singles.lock();
+    if spec.faults.len() == 1 {
+        seen.insert((spec.shape, spec.faults[0].kind(), sym.to_string()));
+    } else if let Some(f) = spec.faults.iter().find(|f| seen.contains(&(spec.shape, f.kind(), sym.to_string()))) {
+        return format!("{:?}|{}|{sym}", spec.shape, f.kind());
+    }
+    format!("{:?}|{}|{sym}", spec.shape, spec.faults.iter().map(|f| f.kind()).collect::<Vec<_>>().join("+"))
+}
+
 fn explore(ctx: &Ctx) {
     // scenarios = shape x batch size x budget
     let batch_sizes: Vec<usize> = ctx.pick(vec![8192], vec![8192, 2]);
@@ -372,7 +382,11 @@ fn explore(ctx: &Ctx) {
     items.sort_by_key(|(s, _)| s.faults.len());
     ctx.count("scenarios", scenarios.len() as u64);
     ctx.count("fault_sets", items.len() as u64);
-    items.par_iter().for_each(|(spec, base)| {
+    // single faults first, then the pairs: a pair whose violation is already shown by one of its faults alone
+    // is reported under the key of that single fault (one root cause = one key)
+    let single_violations: parking_lot::Mutex<std::collections::HashSet<(Shape, &'static str, String)>> = Default::default();
+    for phase in [1usize, 2] {
+    items.par_iter().filter(|(s, _)| (s.faults.len() > 1) == (phase == 2)).for_each(|(spec, base)| {
         if ctx.should_stop() {
             return;
         }
@@ -384,13 +398,16 @@ fn explore(ctx: &Ctx) {
         } else {
             bound
         };
+        let local: std::cell::RefCell<HashMap<String, u64>> = Default::default();
+        let lcount = |name: String, n: u64| *local.borrow_mut().entry(name).or_insert(0) += n;
+        let mut shape_counts = [0u64; 4];
         let stats = mc_core::explore::dfs_deviations(
             b,
             |prefix| {
                 let o = match mc_core::catch(|| run(spec, prefix)) {
                     Ok(o) => o,
                     Err(p) => {
-                        let key = format!("{:?}|{}|panic", spec.shape, spec.faults.iter().map(|f| f.kind()).collect::<Vec<_>>().join("+"));
+                        let key = violation_key(spec, "panic", &single_violations);
                         if std::env::var("C20_TRACE").is_ok() {
                             eprintln!("PANIC-CASE {}", json!({"spec": spec, "prefix": prefix}));
                         }
@@ -408,25 +425,23 @@ fn explore(ctx: &Ctx) {
                 ctx.eval();
                 for (i, n) in ["none", "err_again", "batch", "pending", "panic"].iter().enumerate() {
                     if o.after_error[i] > 0 {
-                        ctx.count(&format!("informational.poll_after_first_error.{n}"), o.after_error[i] as u64);
+                        lcount(format!("informational.poll_after_first_error.{n}"), o.after_error[i] as u64);
                         if i > 0 {
-                            ctx.count(&format!("informational.poll_after_first_error.{n}.{:?}", spec.shape), o.after_error[i] as u64);
+                            lcount(format!("informational.poll_after_first_error.{n}.{:?}", spec.shape), o.after_error[i] as u64);
                         }
                     }
                 }
                 let kinds = spec.faults.iter().map(|f| f.kind()).collect::<Vec<_>>().join("+");
                 match check(spec, base, &o) {
                     Ok(how) => {
-                        ctx.count(&format!("runs.{kinds}.{how}"), 1);
-                        let mut m = per_shape.lock();
-                        let e = m.entry(spec.shape.name()).or_insert([0; 4]);
+                        lcount(format!("runs.{kinds}.{how}"), 1);
+                        let e = &mut shape_counts;
                         e[0] += 1;
                         match how {
                             "error" => e[1] += 1,
                             "full_result" => e[2] += 1,
                             _ => e[3] += 1,
                         }
-                        drop(m);
                         if how != "not_reached" {
                             // distinct non-trivial = distinct (scenario, fault set, observable outcome)
                             let sig: Vec<(usize, bool)> = o.rec.outputs.iter().map(|x| (x.batches.iter().map(|b| b.num_rows()).sum(), x.error.is_some())).collect();
@@ -440,7 +455,7 @@ fn explore(ctx: &Ctx) {
                         }
                     }
                     Err((sym, what)) => {
-                        let key = format!("{:?}|{kinds}|{sym}", spec.shape);
+                        let key = violation_key(spec, &sym, &single_violations);
                         if std::env::var("C20_TRACE").is_ok() {
                             eprintln!("VIOLATION-CASE {key} {what} {}", json!({"spec": spec, "prefix": o.trace.choices}));
                         }
@@ -451,10 +466,21 @@ fn explore(ctx: &Ctx) {
             },
             || ctx.should_stop(),
         );
+        for (k, v) in local.borrow().iter() {
+            ctx.count(k, *v);
+        }
+        {
+            let mut m = per_shape.lock();
+            let e = m.entry(spec.shape.name()).or_insert([0; 4]);
+            for i in 0..4 {
+                e[i] += shape_counts[i];
+            }
+        }
         if !stats.complete {
             ctx.mark_capped("wall cap hit during fault enumeration");
         }
     });
+    }
     let m = per_shape.lock();
     let mut shapes_json = serde_json::Map::new();
     for (k, v) in m.iter() {
